@@ -39,6 +39,8 @@ def run(ctx):
     # (c)
     _run_as(c13, _Only(ctx, "C09-c", ("prefix-template", "prefix-key", "separators", "kind-new", "anchor-after-target", "paren-anchor-only-without-target",
                                       "G10|", "G14|", "inner-handles", "post-target-span", "target-flag", "shift-span", "shift-paren", "key-constant")), ctx)
+    from .finder import rule_statement_local_state
+    rule_statement_local_state(ctx, facts, "C09-c")
     f = facts.one(r"rust_log_ref_finder::find$")
     if ctx.check(f is not None, "C09-c", "anchor|find", "the Rust finder found", ""):
         prov = Prov(f)
